@@ -344,6 +344,8 @@ func (k Keeper) getDecimal(ctx sdk.Context, assetID string) (int, sdkmath.Int, e
 	return int(decimal), sdkmath.NewIntWithDecimal(1, int(decimal)), nil
 }
 
+var errBalanceChangeTooShort = errors.New("balance change data ends before the changes of all flagged stakers")
+
 // parseBalanceChange parses rawData to details of amount change for all stakers relative to native restaking
 func parseBalanceChange(rawData []byte, sl types.StakerList) (map[string]int, error) {
 	// eg. 0100-000011
@@ -364,11 +366,22 @@ func parseBalanceChange(rawData []byte, sl types.StakerList) (map[string]int, er
 		for i := 7; i >= 0; i-- {
 			index++
 			if (b>>i)&1 == 1 {
+				// rawData is whatever reached consensus as the price string (and is parsed again whenever
+				// the previous price is re-appended in EndBlock): never index past it or past the list
+				if index >= len(sl.StakerAddrs) {
+					return stakerChanges, fmt.Errorf("balance change flags staker index %d, staker list has %d entries", index, len(sl.StakerAddrs))
+				}
+				if byteIndex >= len(changes) {
+					return stakerChanges, errBalanceChangeTooShort
+				}
 				lenValue := changes[byteIndex] << bitOffset
 				bitsLeft := 8 - bitOffset
 				lenValue >>= (8 - lengthBits)
 				if bitsLeft < lengthBits {
 					byteIndex++
+					if byteIndex >= len(changes) {
+						return stakerChanges, errBalanceChangeTooShort
+					}
 					lenValue |= changes[byteIndex] >> (8 - lengthBits + bitsLeft)
 					bitOffset = lengthBits - bitsLeft
 				} else {
@@ -390,6 +403,9 @@ func parseBalanceChange(rawData []byte, sl types.StakerList) (map[string]int, er
 				stakerChange := 0
 				for bitsExtracted < int(lenValue) {
 					bitsLeft := 8 - bitOffset
+					if byteIndex >= len(changes) {
+						return stakerChanges, errBalanceChangeTooShort
+					}
 					byteValue := changes[byteIndex] << bitOffset
 					if (int(lenValue) - bitsExtracted) < bitsLeft {
 						bitsLeft = int(lenValue) - bitsExtracted
